@@ -85,6 +85,7 @@ class Acc:
         "violation_count",
         "counters",
         "outcomes",
+        "nontrivial_count",
     )
 
     def __init__(self):
@@ -99,6 +100,8 @@ class Acc:
         self.violation_count = 0
         self.counters: Dict[str, int] = {}
         self.outcomes = set()
+        #: distinct non-trivial cases counted by the engine itself (distinct by construction)
+        self.nontrivial_count = 0
 
     # -- recording -----------------------------------------------------------------
     def case(self, nontrivial_key: Any = None, sample: Any = None, n: int = 1):
@@ -141,6 +144,7 @@ class Acc:
         self.nontrivial |= other.nontrivial
         self.state_set |= other.state_set
         self.outcomes |= other.outcomes
+        self.nontrivial_count += other.nontrivial_count
         for s in other.samples:
             if len(self.samples) < MAX_SAMPLES:
                 self.samples.append(s)
@@ -249,7 +253,7 @@ def write_evidence(ctx: Ctx, violations: int, wall: float) -> str:
         "traces_validated_against_impl": acc.traces or acc.evaluations,
         "samples": acc.samples or ["<none>"],
         "evaluations": acc.evaluations,
-        "distinct_nontrivial": len(acc.nontrivial),
+        "distinct_nontrivial": len(acc.nontrivial) + acc.nontrivial_count,
         "distinct_outcomes": len(acc.outcomes),
         "rule": ctx.meta.get("rule", ""),
         "exhaustive": bool(ctx.meta.get("exhaustive", False)),
@@ -351,7 +355,7 @@ def finish(ctx: Ctx) -> int:
             acc.evaluations,
             acc.states or len(acc.state_set) or len(acc.nontrivial),
             acc.transitions or acc.evaluations,
-            len(acc.nontrivial),
+            len(acc.nontrivial) + acc.nontrivial_count,
             len(acc.outcomes),
             wall,
         )
